@@ -314,12 +314,17 @@ def r5(ctx, prop=P, rule="C06.R5"):
     trip = None
     detail = "no affine word loop found"
     for h, body, _ in fd.loops():
-        for b, o, tr, fl in bool_switches(fd, lambda o: o[0] == "bin" and o[1] in ("Le", "Lt", "Ge", "Gt")):
+        for b, o, tr, fl in bool_switches(fd, lambda o: o[0] == "bin" and o[1] == "Lt"):
             if b not in body:
                 continue
-            op, lhs, rhs = o[1], o[2], o[3]
-            if op in ("Ge", "Gt"):
-                op, lhs, rhs = {"Ge": "Le", "Gt": "Lt"}[op], rhs, lhs
+            # canonical test Lt(x, y): the loop continues either while x < y (true edge stays in the
+            # loop) or while y <= x (false edge stays)
+            if tr in body and fl not in body:
+                op, lhs, rhs = "Lt", o[2], o[3]
+            elif fl in body and tr not in body:
+                op, lhs, rhs = "Le", o[3], o[2]
+            else:
+                continue
             li = lin(ctx, lhs)
             if li is None or "<loop>" not in li:
                 continue
